@@ -974,6 +974,31 @@ func preparedOnce(c *Case, res *result) (string, string, string) {
 // failed with an injected error, must return that error (the entry in the map at that
 // moment is the preparer's: there is one entry per text).
 func failedPrepareReported(c *Case, res *result) (string, string, string) {
+	// every preparation that reached the pool, as an interval
+	type span struct {
+		task     int
+		text     string
+		from, to int64
+	}
+	var spans []span
+	{
+		o := map[int]*span{}
+		for _, ev := range res.pool {
+			switch ev.Kind {
+			case "prepare_start":
+				o[ev.Task] = &span{task: ev.Task, text: ev.SQL, from: ev.Seq, to: 1 << 62}
+			case "prepare":
+				if sp := o[ev.Task]; sp != nil {
+					sp.to = ev.Seq
+					spans = append(spans, *sp)
+					delete(o, ev.Task)
+				}
+			}
+		}
+		for _, sp := range o {
+			spans = append(spans, *sp)
+		}
+	}
 	open := map[int]*prep{}
 	for _, ev := range res.pool {
 		switch ev.Kind {
@@ -992,6 +1017,18 @@ func failedPrepareReported(c *Case, res *result) (string, string, string) {
 				}
 			}
 			if marker == "" {
+				continue
+			}
+			// another preparation of the same text in flight at the same time (session
+			// siblings whose maps a Reset has separated, a transaction-bound entry): which
+			// one a waiter waited for cannot be told
+			ambiguous := false
+			for _, sp := range spans {
+				if sp.task != ev.Task && sp.text == pr.text && sp.from < ev.Seq && sp.to > pr.start {
+					ambiguous = true
+				}
+			}
+			if ambiguous {
 				continue
 			}
 			for _, w := range res.waits {
